@@ -97,6 +97,7 @@ class ContractDB:
         self.specs: dict[str, _SpecFunc] = {}
         self.aliases: dict[str, str] = {}
         self.type_aliases: dict[str, str] = {}
+        self.typevar_bindings: dict[str, str] = {}
         self.lemmas: dict[str, tuple] = {}
         self.files: list[str] = []
         self.module_asts: dict[str, ast.Module] = {}
@@ -129,6 +130,8 @@ class ContractDB:
                     self.aliases.update(ast.literal_eval(st.value))
                 elif n == "type_aliases":
                     self.type_aliases.update(ast.literal_eval(st.value))
+                elif n == "typevar_bindings":
+                    self.typevar_bindings.update(ast.literal_eval(st.value))
             elif isinstance(st, ast.FunctionDef):
                 decos = [ast.unparse(d) for d in st.decorator_list]
                 if any(d.startswith("spec") for d in decos):
@@ -375,6 +378,11 @@ class ContractDB:
         if con.requires is not None:
             nfr = self.contract_frame(it, con, self.fn_env(con.requires, env), fr)
             for name, term in self.eval_clauses_fn(it, con.requires, nfr):
+                if name.startswith("A_"):
+                    # instance of a ghost function's defining property: assumed, not an obligation
+                    it.notes.add(f"ghost definition instance assumed: {name} (contract {con.name})")
+                    it.assume(term)
+                    continue
                 it.oblige(f"call:{fi.qname}/pre:{name}", term, "callpre", site=("callpre", fi.qname, name, id(con)))
         # exceptional outcomes (decided in the pre-state)
         if con.raises is not None:
